@@ -992,6 +992,8 @@ class Transaction(object):
                 elif 'unknown' in script.script_types and not coinbase:
                     inputs[n].script_type = 'unknown'
 
+                if coinbase and inputs[n].witness_type == 'legacy':
+                    inputs[n].witness_type = 'segwit'
                 inputs[n].update_scripts()
 
         locktime_bytes = rawtx.read(4)[::-1]
